@@ -87,8 +87,24 @@ type step struct {
 	Stale  []lostRec           `json:"stale,omitempty"`
 	Tot    map[string]int64    `json:"tot,omitempty"`
 	Tot0   map[string]int64    `json:"tot0,omitempty"`
-	Xst    map[string]string   `json:"xst,omitempty"`
+	Xst    strMap              `json:"xst,omitempty"`
 }
+// strMap decodes a TLA+ function with string domain; the empty function is printed as an empty array
+type strMap map[string]string
+
+func (m *strMap) UnmarshalJSON(bs []byte) error {
+	if strings.HasPrefix(strings.TrimSpace(string(bs)), "[") {
+		*m = strMap{}
+		return nil
+	}
+	var x map[string]string
+	if err := json.Unmarshal(bs, &x); err != nil {
+		return err
+	}
+	*m = x
+	return nil
+}
+
 type behaviour struct {
 	Cfg   modelCfg `json:"cfg"`
 	Steps []step   `json:"steps"`
@@ -768,7 +784,7 @@ func runBehaviour(b behaviour, rnd *rand.Rand) (res *outcome, blocks int, info m
 			// the block itself failed (timer handling, term processing): the network cannot make progress
 			o := viol("block-execution-failed", "real block %d (model block %d) failed: %v", sim.BlockHeight()+1, hModel, err)
 			// the spec recorded which unbonding-timer entries a 100%% slash leaves without an unbond
-			for _, st := range b.Steps[:i] {
+			for _, st := range b.Steps[:j] { // including the transactions of the failing block itself
 				for _, l := range st.Stale {
 					if l.E == hModel && strings.Contains(err.Error(), "Unbond timer not found") {
 						o.key = "unbond:slashed-while-unbonding:stale-timer-entry:block-fails"
